@@ -32,10 +32,14 @@ type scenario struct {
 	// AdmissionFaults: budget of "admission for one managed object starts answering every write
 	// and dry run with a reason-less 500" (and may heal again)
 	AdmissionFaults int `json:"admissionFaults"`
+	// Foreground: the user deletes with propagationPolicy=Foreground (kubectl delete
+	// --cascade=foreground): the ObjectSet also carries the foregroundDeletion finalizer and the
+	// garbage collector deletes the dependents itself, in no particular order
+	Foreground bool `json:"foreground"`
 }
 
 func (sc scenario) name() string {
-	return fmt.Sprintf("B1 phases=%d delegated=%03b archive=%v holds=%v restarts=%d takeover=%v conflicts=%d rearchive=%v admissionFaults=%d", sc.N, sc.Mask, sc.Archive, sc.Holds, sc.Restarts, sc.TakeOver, sc.Conflicts, sc.Rearchive, sc.AdmissionFaults)
+	return fmt.Sprintf("B1 phases=%d delegated=%03b archive=%v holds=%v restarts=%d takeover=%v conflicts=%d rearchive=%v admissionFaults=%d foreground=%v", sc.N, sc.Mask, sc.Archive, sc.Holds, sc.Restarts, sc.TakeOver, sc.Conflicts, sc.Rearchive, sc.AdmissionFaults, sc.Foreground)
 }
 
 func system(sc scenario) *world.System {
@@ -90,7 +94,11 @@ func system(sc scenario) *world.System {
 				} else {
 					evs = append(evs, world.Event{Name: "user:delete:r1", Apply: func(w *world.World) *world.Pass {
 						w.Budget["user"]--
-						_ = w.S.Delete(osw.OSKey("r1"), kmodel.DeleteOpts{})
+						opts := kmodel.DeleteOpts{}
+						if sc.Foreground {
+							opts.Propagation = "Foreground"
+						}
+						_ = w.S.Delete(osw.OSKey("r1"), opts)
 						return nil
 					}})
 				}
@@ -357,8 +365,15 @@ func scenarios(quick bool) []scenario {
 		}
 		if arch {
 			out = append(out, scenario{N: 2, Mask: 0, Archive: true, Holds: []string{"a"}, Rearchive: true})
+		} else {
+			out = append(out, scenario{N: 2, Mask: 0, Holds: []string{"b"}, Foreground: true, Restarts: 1}, scenario{N: 2, Mask: 0b10, Holds: []string{"a", "g"}, Foreground: true})
 		}
 		if !quick {
+			if !arch {
+				for m := uint(0); m < 8; m++ {
+					out = append(out, scenario{N: 3, Mask: m, Holds: []string{"b", "c"}, Foreground: true, Restarts: 1, TakeOver: true})
+				}
+			}
 			if arch {
 				out = append(out, scenario{N: 3, Mask: 0, Archive: true, Holds: []string{"b"}, Rearchive: true}, scenario{N: 2, Mask: 0b10, Archive: true, Holds: []string{"a"}, Rearchive: true})
 			}
@@ -374,7 +389,7 @@ func scenarios(quick bool) []scenario {
 
 func run(o checks.Opts) *report.Report {
 	rep := report.New("C04", "bfs")
-	rep.Rule = "explicit-state BFS to closure from the fully rolled-out state: user deletes or archives the ObjectSet, then reconcile(ObjectSet / each ObjectSetPhase), finalizer holder releasing foreign finalizers, garbage collector, third party making another ObjectSet the controller of b, (budgeted) an operator crash before request i of a pass for every i, and (budgeted) another actor's write to the target landing just before write i of a pass for every i (delete precondition / update conflict); (budgeted) admission for one managed object starting to answer every write and dry run with a reason-less 500 and healing again, (one system: all passes in one long-lived operator process, the archived ObjectSet set back to Active and archived again); monitors on every delete / finalizer removal / Archived=True write and an invariant on every state"
+	rep.Rule = "explicit-state BFS to closure from the fully rolled-out state: user deletes (background, or foreground propagation with the garbage collector deleting dependents itself) or archives the ObjectSet, then reconcile(ObjectSet / each ObjectSetPhase), finalizer holder releasing foreign finalizers, garbage collector, third party making another ObjectSet the controller of b, (budgeted) an operator crash before request i of a pass for every i, and (budgeted) another actor's write to the target landing just before write i of a pass for every i (delete precondition / update conflict); (budgeted) admission for one managed object starting to answer every write and dry run with a reason-less 500 and healing again, (one system: all passes in one long-lived operator process, the archived ObjectSet set back to Active and archived again); monitors on every delete / finalizer removal / Archived=True write and an invariant on every state"
 	scs := scenarios(o.Quick())
 	rep.Bounds["systems"] = len(scs)
 	for i, sc := range scs {
